@@ -2,35 +2,57 @@
 (* server/region_syncer/history_buffer.go: the change log kept for region synchronisation.     *)
 (* A window of at most Cap records ending at `index` (the next index); the next index is        *)
 (* persisted every Flush records and when the buffer is reset; Restart creates a new buffer      *)
-(* that reloads the persisted index (the records themselves are volatile).                      *)
+(* that reloads the persisted index (the records themselves are volatile).  The write of the     *)
+(* index may fail (Record(TRUE)): the failure is only logged and the next attempt comes Flush      *)
+(* records later, so a restart may go back by Flush records per failed attempt in a row, plus one. *)
 EXTENDS Integers, Sequences, TLC
-CONSTANTS Cap, Flush, MaxIndex, MaxOps, ResetTargets
+CONSTANTS Cap, Flush, MaxIndex, MaxOps, ResetTargets, MaxFails, Bursts
 VARIABLES recs,       \* the records in the window, oldest first (a record is identified by the index it was given)
           index,      \* next index
           persisted,  \* persisted next index
           countdown, nOps,
+          fails,      \* failed writes of the index in a row
           before      \* ghost: next index just before the last Restart (-1 = no restart yet)
-vars == <<recs, index, persisted, countdown, nOps, before>>
-Init == recs = <<>> /\ index = 0 /\ persisted = 0 /\ countdown = Flush /\ nOps = 0 /\ before = -1
+vars == <<recs, index, persisted, countdown, nOps, fails, before>>
+Init == recs = <<>> /\ index = 0 /\ persisted = 0 /\ countdown = Flush /\ nOps = 0 /\ fails = 0 /\ before = -1
 First == index - Len(recs)
 Step == nOps < MaxOps /\ nOps' = nOps + 1
-Record ==
+Record(f) ==
   /\ Step /\ index < MaxIndex
+  /\ f => (countdown = 1 /\ fails < MaxFails)
   /\ recs' = IF Len(recs) = Cap THEN Append(Tail(recs), index) ELSE Append(recs, index)
   /\ index' = index + 1
-  /\ IF countdown = 1 THEN persisted' = index + 1 /\ countdown' = Flush ELSE UNCHANGED persisted /\ countdown' = countdown - 1
+  /\ IF countdown = 1
+       THEN /\ countdown' = Flush                                       \* the countdown restarts whether or not the write succeeded
+            /\ IF f THEN UNCHANGED persisted /\ fails' = fails + 1 ELSE persisted' = index + 1 /\ fails' = 0
+       ELSE UNCHANGED <<persisted, fails>> /\ countdown' = countdown - 1
+  /\ UNCHANGED before
+(* n records in a row (n <= Flush, so at most one write of the index falls due inside the burst; f: it fails).  The same *)
+(* as n Record steps; it exists so that simulation reaches the flush points of a countdown of 100.                  *)
+Records(n, f) ==
+  /\ Step /\ index + n <= MaxIndex /\ n <= Flush
+  /\ f => (n >= countdown /\ fails < MaxFails)
+  /\ LET all == recs \o [k \in 1..n |-> index + k - 1] IN
+       recs' = IF Len(all) > Cap THEN SubSeq(all, Len(all) - Cap + 1, Len(all)) ELSE all
+  /\ index' = index + n
+  /\ IF n >= countdown
+       THEN /\ countdown' = Flush - (n - countdown)
+            /\ IF f THEN UNCHANGED persisted /\ fails' = fails + 1 ELSE persisted' = index + countdown /\ fails' = 0
+       ELSE UNCHANGED <<persisted, fails>> /\ countdown' = countdown - n
   /\ UNCHANGED before
 Reset(i) ==
-  /\ Step /\ recs' = <<>> /\ index' = i /\ persisted' = i /\ countdown' = Flush /\ UNCHANGED before
+  /\ Step /\ recs' = <<>> /\ index' = i /\ persisted' = i /\ countdown' = Flush /\ fails' = 0 /\ UNCHANGED before
 Restart ==
-  /\ Step /\ before' = index /\ recs' = <<>> /\ index' = persisted /\ countdown' = Flush /\ UNCHANGED persisted
+  /\ Step /\ before' = index /\ recs' = <<>> /\ index' = persisted /\ countdown' = Flush /\ fails' = 0 /\ UNCHANGED persisted
 (* the query, as a definition: exactly the records from i to the newest, or nothing outside the window *)
 RecordsFrom(i) == IF i >= First /\ i < index THEN SubSeq(recs, i - First + 1, Len(recs)) ELSE <<>>
-Next == Record \/ (\E i \in ResetTargets : Reset(i)) \/ Restart
+Next == (\E f \in BOOLEAN : Record(f)) \/ (\E n \in Bursts, f \in BOOLEAN : Records(n, f)) \/ (\E i \in ResetTargets : Reset(i)) \/ Restart
 Spec == Init /\ [][Next]_vars
 WindowExact == /\ Len(recs) <= Cap
                /\ \A k \in 1..Len(recs) : recs[k] = First + k - 1
                /\ \A i \in 0..MaxIndex : RecordsFrom(i) = IF i >= First /\ i < index THEN [k \in 1..(index - i) |-> i + k - 1] ELSE <<>>
 RestartNotFarBack == before # -1 => (nOps > 0 => TRUE)
-RestartBound == [][(before' # before) => index' >= index - Flush]_vars
+RestartBound == [][(before' # before) => index' >= index - Flush * (fails + 1)]_vars
+\* the clause as listed (no failed write since the last successful one): at most Flush records back
+RestartBoundNoFailure == [][(before' # before /\ fails = 0) => index' >= index - Flush]_vars
 =============================================================================
